@@ -141,7 +141,7 @@ class _GhostResult:
         raise Unsupported(f'the result list is used through .{name} (outside the loop contract)')
 
 
-@harness('NC1', targets='kopf._cogs.clients.fetching.list_objs', props=['C19', 'C12'],
+@harness('NC1', targets='kopf._cogs.clients.fetching.list_objs', props=['C19', 'C12', 'C03'],
          clauses=['one_list_request', 'every_item_returned_in_order', 'kind_apiversion_filled_where_missing',
                   'nothing_without_items', 'resource_version_of_the_list', 'failures_propagate'],
          canaries=['canary.never_fails', 'canary.always_versioned', 'canary.kind_always_filled'],
@@ -323,7 +323,7 @@ def _draw_discovery_entries(vc):
     return entries
 
 
-@harness('NC2', targets='kopf._cogs.clients.scanning._read_version', props=['C19', 'C12'],
+@harness('NC2', targets='kopf._cogs.clients.scanning._read_version', props=['C19', 'C12', 'C08'],
          clauses=['one_discovery_request', 'one_resource_per_plain_entry', 'identity_from_the_arguments', 'names_from_the_entry',
                   'subresources_attached_to_their_parent', 'vanished_group_tolerated', 'other_failures_propagate'],
          canaries=['canary.never_empty', 'canary.never_fails', 'canary.no_subresources'],
@@ -644,7 +644,7 @@ def NC3(vc):
 
 
 # ================================================================================================ NC4
-FINDING_POSTING_TIMEOUT = 'F-C12-4'   # time-outs / other connection errors of the POST escape post_event and kill the poster task
+FINDING_POSTING_TIMEOUT = 'F-C12-5'   # time-outs / other connection errors of the POST escape post_event and kill the poster task
 K8S_MESSAGE_LIMIT = 1024              # k8s.io/api core/v1 Event validation: "message: can have at most 1024 characters"
 
 
@@ -799,9 +799,9 @@ def NC4(vc):
     it escalates at once) never leaves post_event: it returns normally and leaves one log line of level warning or
     higher; a cancellation, a non-Exception and an unrelated exception propagate unchanged (other aiohttp.ClientError
     kinds: either).
-    KNOWN FINDING F-C12-4: asyncio.TimeoutError (incl. aiohttp.ServerTimeoutError) and the aiohttp.ClientConnectionError
+    F-C12-5 (found here, FIXED in repo 44a7137): asyncio.TimeoutError (incl. aiohttp.ServerTimeoutError) and the aiohttp.ClientConnectionError
     kinds that are neither ClientOSError nor ServerDisconnectedError (the base class, ClientConnectionResetError,
-    ServerConnectionError) are NOT contained: they kill the root task "poster of events" and with it the operator.
+    ServerConnectionError) were NOT contained: they killed the root task "poster of events" and with it the operator.
     """
     scenario = ['sent', 'failures'][vc.nondet(2, 'scenario: what is sent / which failures are contained')]
     logger = _RecLogger(vc)
@@ -872,7 +872,7 @@ def NC4(vc):
     if thrown is not None:
         if isinstance(thrown, _POST_CONTAINED):
             escapes = not isinstance(thrown, (errors.APIError, aiohttp.ClientResponseError, aiohttp.ServerDisconnectedError, aiohttp.ClientOSError))
-            vc.ensure('infrastructure_failures_contained', raised is None and result is None, excuse={FINDING_POSTING_TIMEOUT: escapes})
+            vc.ensure('infrastructure_failures_contained', raised is None and result is None)      # F-C12-5 (fixed in repo 44a7137) was found here
             if raised is None:
                 vc.ensure('contained_with_a_log_line', len(logs) >= 1)
         elif not isinstance(thrown, Exception) or type(thrown).__name__ == 'UnrelatedError':
@@ -928,3 +928,244 @@ def NC4(vc):
     vc.ensure('message_within_the_limit', spec_message_cut(vc, sent, message, n))
     vc.canary('canary.never_cut', sent is message)
     return ('sent', mk, type(thrown).__name__)
+
+
+# ================================================================================================ NC5
+_ABSENT = Opaque('<absent>')
+
+
+@harness('NC5', targets='kopf._cogs.clients.creating.create_obj', props=['C12'],
+         clauses=['one_post_to_the_collection', 'body_wins_over_arguments', 'rest_of_the_body_kept', 'returns_the_created_object',
+                  'failures_propagate'],
+         canaries=['canary.never_fails', 'canary.always_namespaced', 'canary.arguments_always_used'],
+         trusted=['api.post by contract N5', 'Resource.get_url by contract O11'])
+def NC5(vc):
+    """
+    creating.create_obj(settings, resource, namespace=None, name=None, body=None, logger): exactly ONE api.post of the object
+    to the resource's collection URL (no name, no subresource in it), for every combination of body {omitted, None, {},
+    with/without metadata, with/without its own namespace/name, with other fields} x namespace/name {omitted, None, '', given}:
+      * the object posted has metadata.namespace / metadata.name = the body's own where the body has them, else the
+        arguments where they are given (not None; an EMPTY string names nothing: it may be posted as '' or left out),
+        else none at all (no metadata is invented for a bare call);
+        every other field of the body is posted unchanged;
+      * the URL is resource.get_url(namespace = the posted object's metadata.namespace, None if it has none): the object
+        is created in the namespace it says it is in;
+      * the result is what the API returned; C12: every failure propagates unchanged -- the caller (admission's
+        configuration manager) tells 409 Conflict ("exists already") from 403 Forbidden by the class; nothing is retried
+        or swallowed here.
+    """
+    settings, logger, url, created = Opaque('settings'), _RecLogger(vc), Opaque('url'), Opaque('created-object')
+    resource = Opaque('resource')
+    resource.get_url = lambda *a, **kw: (vc.emit('get_url', a, kw), url)[1]
+    ns_b, name_b, spec = Opaque('body-namespace'), Opaque('body-name'), Opaque('spec')
+    shape = vc.nondet(8, 'body: omitted / None / {} / metadata {} / own namespace / own name / both + spec / spec only')
+    body = [_ABSENT, None, {}, {'metadata': {}}, {'metadata': {'namespace': ns_b}}, {'metadata': {'name': name_b, 'labels': spec}},
+            {'metadata': {'namespace': ns_b, 'name': name_b}, 'spec': spec}, {'spec': spec}][shape]
+    arg_ns = [_ABSENT, None, '', Opaque('arg-namespace')][vc.nondet(4, 'namespace: omitted / None / empty / given')]
+    arg_name = [_ABSENT, None, '', Opaque('arg-name')][vc.nondet(4, 'name: omitted / None / empty / given')]
+    orig = copy.deepcopy(body) if isinstance(body, dict) else {}
+    orig_md = orig.get('metadata', {})
+    # deepcopy re-creates the Opaque leaves: compare through their names
+    same = lambda a, b: (a is b) or (isinstance(a, Opaque) and isinstance(b, Opaque) and a._name == b._name)
+    reps = exception_reps([errors.APIConflictError, errors.APIForbiddenError, errors.APIError], with_base=False) \
+        + [aiohttp.ClientConnectionError, asyncio.CancelledError]
+    st = dict(thrown=None)
+
+    async def post(*args, **kw):
+        vc.emit('post', args, kw)
+        await suspend('api.post')
+        k = vc.nondet(1 + len(reps), 'api.post: created / raises')
+        if k > 0:
+            st['thrown'] = _mk(reps[k - 1], status=409)
+            raise st['thrown']
+        return created
+    vc.used('api.post', 'N5'); vc.used('references.Resource.get_url', 'O11')
+    ld = vc.load('kopf._cogs.clients.creating', 'create_obj', stubs={'api.post': post})
+    kw = dict(settings=settings, resource=resource, logger=logger)
+    for k, v in (('body', body), ('namespace', arg_ns), ('name', arg_name)):
+        if v is not _ABSENT:
+            kw[k] = v
+    result = raised = None
+    try:
+        result = vc.drive(ld.fn(**kw))
+    except BaseException as e:
+        if _ours(e):
+            raise
+        raised = e
+    posts = [ev for ev in vc.trace if ev[0] == 'post']
+    urls = [ev for ev in vc.trace if ev[0] == 'get_url']
+    vc.ensure('one_post_to_the_collection', len(posts) == 1 and len(urls) == 1)
+    if len(posts) != 1 or len(urls) != 1:
+        return ('no-single-post', len(posts), type(raised).__name__)
+    got = dict(zip(['url'], posts[0][1]), **posts[0][2])
+    sent = got.get('payload')
+    vc.ensure('one_post_to_the_collection', got.get('url') is url and got.get('settings') is settings and got.get('logger') is logger
+              and set(got) == {'url', 'settings', 'logger', 'payload'} and isinstance(sent, dict)
+              and urls[0][1] == () and set(urls[0][2]) == {'namespace'})
+    if not isinstance(sent, dict):
+        return ('malformed',)
+    md = sent.get('metadata', _ABSENT)
+    given = lambda a: a is not _ABSENT and a is not None
+    # an EMPTY namespace/name argument names nothing: whether it is posted as '' or left out is not this contract's business
+    wanted = lambda own, arg: [orig_md[own]] if own in orig_md else ([arg] if given(arg) and arg != '' else
+                                                                   ['', _ABSENT] if given(arg) else [_ABSENT])
+    want_ns, want_name = wanted('namespace', arg_ns), wanted('name', arg_name)
+    must_md = 'metadata' in orig or _ABSENT not in want_ns or _ABSENT not in want_name
+    may_md = must_md or want_ns != [_ABSENT] or want_name != [_ABSENT]
+    vc.ensure('body_wins_over_arguments', isinstance(md, dict) if must_md else (md is _ABSENT or (may_md and isinstance(md, dict))))
+    md = md if isinstance(md, dict) else {}
+    vc.ensure('body_wins_over_arguments', any(same(md.get('namespace', _ABSENT), w) for w in want_ns)
+              and any(same(md.get('name', _ABSENT), w) for w in want_name))
+    vc.canary('canary.arguments_always_used', not given(arg_ns) or md.get('namespace', _ABSENT) is arg_ns)
+    vc.ensure('rest_of_the_body_kept', set(sent) - {'metadata'} == set(orig) - {'metadata'}
+              and all(same(sent[k], orig[k]) for k in orig if k != 'metadata')
+              and set(md) - {'namespace', 'name'} == set(orig_md) - {'namespace', 'name'}
+              and all(same(md[k], orig_md[k]) for k in orig_md if k not in ('namespace', 'name')))
+    url_ns = urls[0][2].get('namespace', _ABSENT)
+    vc.ensure('one_post_to_the_collection', url_ns is md.get('namespace', None))
+    vc.canary('canary.always_namespaced', url_ns is not None)
+    vc.canary('canary.never_fails', raised is None)
+    if st['thrown'] is not None:
+        vc.ensure('failures_propagate', raised is st['thrown'])
+        return ('raised', type(raised).__name__)
+    vc.ensure('failures_propagate', raised is None)
+    vc.ensure('returns_the_created_object', result is created)
+    return ('created', shape)
+
+
+# ================================================================================================ NC6
+_SERVERS = [('https://k8s.example.com:6443', 'k8s.example.com', 6443), ('https://k8s.example.com', 'k8s.example.com', 443),
+            ('https://10.1.2.3:443/', '10.1.2.3', 443), ('https://[::1]:8443', '::1', 8443),
+            ('https://K8S.Example.com/some/path', 'k8s.example.com', 443), ('http://localhost:8080/', 'localhost', 8080)]
+
+
+@harness('NC6', targets=['kopf._cogs.clients.api.get_default_namespace', 'kopf._cogs.clients.api.read_sslcert',
+                         'kopf._cogs.clients.scanning.read_version'], props=['C12'],
+         clauses=['authenticated', 'ns.of_the_current_credentials', 'cert.of_the_api_server', 'cert.not_on_the_event_loop',
+                  'version.one_get', 'failures_propagate', 'no_context_refused'],
+         canaries=['canary.never_fails', 'canary.always_a_namespace', 'canary.always_443'],
+         trusted=['auth.authenticated by contract N3: calls the function with context= the APIContext of the selected credentials, '
+                  're-authenticates on 401', 'api.get by contract N5', 'urllib.parse.urlparse (real library code, run natively '
+                  'on 6 concrete server URLs)', 'loop.run_in_executor(executor, fn, *args): runs fn(*args) in the executor '
+                  '(None = the default thread pool) and gives its result or raises its exception',
+                  'ssl.get_server_certificate((host, port)) -> the PEM text (not run)'])
+def NC6(vc):
+    """
+    The three smallest client functions.
+    api.get_default_namespace(): decorated with @auth.authenticated (so it runs under the current credentials and a 401
+      re-authenticates, N3); returns the default namespace OF THOSE credentials, as it is (None and '' incl.: post_event,
+      NC4, falls back to "default" then); without an injected context it refuses (RuntimeError), it never guesses.
+    api.read_sslcert(): decorated likewise; returns (host, certificate) of the API server of the current credentials:
+      host and port are those of context.server (port 443 if the URL names none; IPv6 literals without brackets); the
+      blocking ssl.get_server_certificate((host, port)) runs in the default executor, never on the event loop (a slow
+      or dead server must not freeze the operator: C12); the certificate is returned as ASCII bytes; failures propagate.
+    scanning.read_version(settings, logger): ONE api.get('/version') with the caller's settings/logger; the parsed
+      document is the result; failures propagate unchanged.
+    """
+    which = ['ns', 'cert', 'version'][vc.nondet(3, 'function: get_default_namespace / read_sslcert / read_version')]
+    if which == 'version':
+        settings, logger, doc = Opaque('settings'), _RecLogger(vc), Opaque('version-document')
+        reps = [errors.APIError, aiohttp.ClientConnectionError, asyncio.CancelledError]
+        st = dict(thrown=None)
+
+        async def get(*args, **kw):
+            vc.emit('get', args, kw)
+            await suspend('api.get')
+            k = vc.nondet(1 + len(reps), 'api.get: document / raises')
+            if k > 0:
+                st['thrown'] = _mk(reps[k - 1])
+                raise st['thrown']
+            return doc
+        vc.used('api.get', 'N5')
+        ld = vc.load('kopf._cogs.clients.scanning', 'read_version', stubs={'api.get': get})
+        result = raised = None
+        try:
+            result = vc.drive(ld.fn(settings=settings, logger=logger))
+        except BaseException as e:
+            if _ours(e):
+                raise
+            raised = e
+        gets = [ev for ev in vc.trace if ev[0] == 'get']
+        vc.ensure('version.one_get', len(gets) == 1)
+        got = dict(zip(['url'], gets[0][1]), **gets[0][2])
+        vc.ensure('version.one_get', got.get('url') == '/version' and got.get('settings') is settings and got.get('logger') is logger
+                  and set(got) == {'url', 'settings', 'logger'})
+        vc.canary('canary.never_fails', raised is None)
+        if st['thrown'] is not None:
+            vc.ensure('failures_propagate', raised is st['thrown'])
+            return ('version', 'raised', type(raised).__name__)
+        vc.ensure('failures_propagate', raised is None)
+        vc.ensure('version.one_get', result is doc)
+        return ('version', 'ok')
+
+    fname = 'get_default_namespace' if which == 'ns' else 'read_sslcert'
+    ld = vc.load('kopf._cogs.clients.api', fname, strip_decorators=_STRIP_DEFAULT + ('auth.authenticated',))
+    # the function as the module really exports it: wrapped by auth.authenticated (functools.wraps leaves __wrapped__)
+    import importlib
+    from kopf._cogs.clients import auth
+    exported = getattr(importlib.import_module('kopf._cogs.clients.api'), fname)
+    marker = getattr(auth.authenticated(ld.fn), '__code__', None)
+    vc.ensure('authenticated', getattr(exported, '__wrapped__', None) is not None and getattr(exported, '__code__', None) is not None
+              and marker is not None and exported.__code__.co_code == marker.co_code
+              and exported.__wrapped__.__code__.co_name == fname)
+    with_context = vc.nondet(2, 'context: not injected / injected') == 1
+    result = raised = None
+    if which == 'ns':
+        dn = [None, '', 'ns-of-the-credentials'][vc.nondet(3, 'default namespace: None / empty / some')] if with_context else None
+        context = Opaque('context', default_namespace=dn) if with_context else None
+        try:
+            result = vc.drive(ld.fn(context=context) if with_context else ld.fn())
+        except BaseException as e:
+            if _ours(e):
+                raise
+            raised = e
+        vc.canary('canary.never_fails', raised is None)
+        if not with_context:
+            vc.ensure('no_context_refused', isinstance(raised, RuntimeError))
+            return ('ns', 'refused')
+        vc.ensure('ns.of_the_current_credentials', raised is None and result is dn)
+        vc.canary('canary.always_a_namespace', bool(result))
+        return ('ns', result)
+
+    server, host, port = _SERVERS[vc.nondet(len(_SERVERS), 'context.server')]
+    context = Opaque('context', server=server) if with_context else None
+    st = dict(thrown=None, on_loop=False)
+
+    def get_server_certificate(*a, **kw):
+        st['on_loop'] = True            # called directly by the function under contract = on the event loop
+        return 'PEM'
+
+    class Loop:
+        async def run_in_executor(self, executor, fn, *args):
+            vc.emit('run_in_executor', executor, fn, args)
+            await suspend('run_in_executor')
+            if vc.nondet(2, 'get_server_certificate: a PEM text / fails') == 1:
+                st['thrown'] = OSError('connection refused')
+                raise st['thrown']
+            return '-----BEGIN CERTIFICATE-----\nMIIB\n-----END CERTIFICATE-----\n'
+    ld2 = vc.load('kopf._cogs.clients.api', fname, strip_decorators=_STRIP_DEFAULT + ('auth.authenticated',),
+                  stubs={'asyncio.get_running_loop': lambda: Loop(), 'asyncio.get_event_loop': lambda: Loop(),
+                         'ssl.get_server_certificate': get_server_certificate})
+    try:
+        result = vc.drive(ld2.fn(context=context) if with_context else ld2.fn())
+    except BaseException as e:
+        if _ours(e):
+            raise
+        raised = e
+    vc.canary('canary.never_fails', raised is None)
+    if not with_context:
+        vc.ensure('no_context_refused', isinstance(raised, RuntimeError) and 'run_in_executor' not in _names(vc))
+        return ('cert', 'refused')
+    runs = [ev for ev in vc.trace if ev[0] == 'run_in_executor']
+    vc.ensure('cert.not_on_the_event_loop', len(runs) == 1 and runs[0][1] is None and runs[0][2] is get_server_certificate
+              and not st['on_loop'])
+    if len(runs) == 1:
+        vc.ensure('cert.of_the_api_server', runs[0][3] == ((host, port),))
+        vc.canary('canary.always_443', runs[0][3] == ((host, 443),))
+    if st['thrown'] is not None:
+        vc.ensure('failures_propagate', raised is st['thrown'])
+        return ('cert', 'raised')
+    vc.ensure('failures_propagate', raised is None)
+    vc.ensure('cert.of_the_api_server', isinstance(result, tuple) and len(result) == 2 and result[0] == host
+              and result[1] == b'-----BEGIN CERTIFICATE-----\nMIIB\n-----END CERTIFICATE-----\n')
+    return ('cert', host, port)
